@@ -164,14 +164,15 @@ func C03(c *Ctx) {
 			c.vetoHandlerExits(vm, body, c.EventName(ev))
 		}
 	}
-	// (3) middlewares
+	// (3) middlewares: the request-time functions of the package that hand the
+	// request on to a wrapped handler (whatever their form: closure, named type)
 	for _, vm := range vetoModules {
-		mw := c.P.FuncOpt(vm.pkg + ".Middleware")
-		if mw == nil {
-			r.Info("C03.middleware", vm.pkg, "Middleware", "-", "package has no Middleware function")
+		bodies := c.middlewareBodies(vm.pkg)
+		if len(bodies) == 0 {
+			r.Info("C03.middleware", vm.pkg, "Middleware", "-", "package has no middleware")
 			continue
 		}
-		c.vetoMiddleware(vm, mw)
+		c.vetoMiddleware(vm, bodies)
 	}
 	// (4) IsLocked shape
 	c.isLockedShape()
@@ -231,18 +232,23 @@ func (c *Ctx) vetoHandlerExits(vm vetoModule, h *ssa.Function, ev string) {
 	}
 }
 
-func (c *Ctx) vetoMiddleware(vm vetoModule, mw *ssa.Function) {
-	r := c.R
-	// innermost closure: the http.HandlerFunc body
-	var bodies []*ssa.Function
-	var collect func(f *ssa.Function)
-	collect = func(f *ssa.Function) {
-		for _, a := range f.AnonFuncs {
-			bodies = append(bodies, a)
-			collect(a)
+// middlewareBodies: request-time functions of a package that call a wrapped
+// http.Handler.
+func (c *Ctx) middlewareBodies(pkg string) []*ssa.Function {
+	var out []*ssa.Function
+	for _, fn := range c.P.Funcs {
+		if pkgOf(fn) != pkg || !hasRequestParams(fn) {
+			continue
+		}
+		if len(CallsTo(fn, fnServeHTTP)) > 0 {
+			out = append(out, fn)
 		}
 	}
-	collect(mw)
+	return out
+}
+
+func (c *Ctx) vetoMiddleware(vm vetoModule, bodies []*ssa.Function) {
+	r := c.R
 	n := 0
 	for _, body := range bodies {
 		for _, call := range CallsTo(body, fnServeHTTP) {
@@ -274,7 +280,7 @@ func (c *Ctx) vetoMiddleware(vm vetoModule, mw *ssa.Function) {
 		}
 	}
 	if n == 0 {
-		r.Unknown("C03.middleware", FuncName(mw), "next.ServeHTTP", "-", "no call of the wrapped handler found")
+		r.Unknown("C03.middleware", vm.pkg, "next.ServeHTTP", "-", "no call of the wrapped handler found")
 	}
 }
 
